@@ -133,7 +133,8 @@ theorem intersectCCOrdered_real (eps : ℝ) (a b : Circle ℝ) :
       if d < eps ∧ a.r < b.r + eps then CC.same
       else if d < a.r - b.r - eps then CC.none
       else if d < a.r - b.r + eps then
-        CC.touchInside ⟨a.c.x + (b.c.x - a.c.x) / d * a.r, a.c.y + (b.c.y - a.c.y) / d * a.r⟩
+        if d ≠ 0 then CC.touchInside ⟨a.c.x + (b.c.x - a.c.x) / d * a.r, a.c.y + (b.c.y - a.c.y) / d * a.r⟩
+        else CC.same
       else if d < a.r + b.r - eps then
         let h := ccH a b
         let s := Real.sqrt (max (a.r * a.r - h * h) 0)
@@ -148,7 +149,7 @@ theorem intersectCCOrdered_real (eps : ℝ) (a b : Circle ℝ) :
   unfold intersectCCOrdered
   simp only [dist_real]
   simp only [realGeo, towards, pdiv, pmul, padd, psub, ccH, Bool.and_eq_true,
-    decide_eq_true_eq, Int.cast_zero, Int.cast_ofNat]
+    decide_eq_true_eq, Int.cast_zero, Int.cast_ofNat, ne_eq]
 
 theorem intersectCC_real (eps : ℝ) (a b : Circle ℝ) :
     intersectCC (realGeo eps) a b =
@@ -293,7 +294,7 @@ def CCPointsOK (eps : ℝ) (a b : Circle ℝ) : CC ℝ → Prop
 theorem edist_of_sq (p q : Point ℝ) (r : ℝ) (h : (p.x - q.x) ^ 2 + (p.y - q.y) ^ 2 = r ^ 2) : edist p q = |r| := by
   unfold edist; rw [h, Real.sqrt_sq_eq_abs]
 
-theorem ccOrdered_points (eps : ℝ) (a b : Circle ℝ) (heps : 0 ≤ eps) (hb : 0 ≤ b.r) (hle : b.r ≤ a.r)
+theorem ccOrdered_points_pos (eps : ℝ) (a b : Circle ℝ) (heps : 0 ≤ eps) (hb : 0 ≤ b.r) (hle : b.r ≤ a.r)
     (hd : 0 < edist a.c b.c) : CCPointsOK eps a b (intersectCCOrdered (realGeo eps) a b) := by
   rw [intersectCCOrdered_real]
   have hd2 := edist_sq a.c b.c
@@ -319,7 +320,7 @@ theorem ccOrdered_points (eps : ℝ) (a b : Circle ℝ) (heps : 0 ≤ eps) (hb :
   · simp only [c2, if_true, CCPointsOK]
   rw [if_neg c2]
   by_cases c3 : d < R - s + eps
-  · rw [if_pos c3]
+  · rw [if_pos c3, if_pos hd.ne']
     apply htouch _ rfl
     · rcases abs_cases (d - R) with ⟨e, _⟩ | ⟨e, _⟩ <;> rw [e] <;> linarith
     · rcases abs_cases (d - R) with ⟨e, _⟩ | ⟨e, _⟩ <;> rw [e] <;> linarith
@@ -374,14 +375,32 @@ theorem intersectCC_cases (eps : ℝ) (a b : Circle ℝ) :
 theorem CCPointsOK_symm (eps : ℝ) (a b : Circle ℝ) (r : CC ℝ) : CCPointsOK eps a b r → CCPointsOK eps b a r := by
   cases r <;> simp only [CCPointsOK] <;> tauto
 
-theorem cc_points (eps : ℝ) (a b : Circle ℝ) (heps : 0 ≤ eps) (ha : 0 ≤ a.r) (hb : 0 ≤ b.r) (hc : a.c ≠ b.c) :
+/-- concentric circles (fix 542ea35): the result carries no point at all -/
+theorem ccOrdered_points_zero (eps : ℝ) (a b : Circle ℝ) (heps : 0 < eps) (hle : b.r ≤ a.r)
+    (hd : edist a.c b.c = 0) : CCPointsOK eps a b (intersectCCOrdered (realGeo eps) a b) := by
+  rw [intersectCCOrdered_real]
+  simp only [hd]
+  by_cases c1 : (0 : ℝ) < eps ∧ a.r < b.r + eps
+  · rw [if_pos c1]; trivial
+  rw [if_neg c1]
+  by_cases c2 : (0 : ℝ) < a.r - b.r - eps
+  · rw [if_pos c2]; trivial
+  rw [if_neg c2, if_pos (by linarith), if_neg (by simp)]
+  trivial
+
+theorem ccOrdered_points (eps : ℝ) (a b : Circle ℝ) (heps : 0 < eps) (hb : 0 ≤ b.r) (hle : b.r ≤ a.r) :
+    CCPointsOK eps a b (intersectCCOrdered (realGeo eps) a b) := by
+  rcases (edist_nonneg a.c b.c).eq_or_lt with h | h
+  · exact ccOrdered_points_zero eps a b heps hle h.symm
+  · exact ccOrdered_points_pos eps a b heps.le hb hle h
+
+theorem cc_points (eps : ℝ) (a b : Circle ℝ) (heps : 0 < eps) (ha : 0 ≤ a.r) (hb : 0 ≤ b.r) :
     CCPointsOK eps a b (intersectCC (realGeo eps) a b) := by
   rcases intersectCC_cases eps a b with ⟨h, e⟩ | ⟨h, e⟩
   · rw [e]
-    exact CCPointsOK_symm _ _ _ _ (ccOrdered_points eps b a heps ha h.le (edist_pos (Ne.symm hc)))
+    exact CCPointsOK_symm _ _ _ _ (ccOrdered_points eps b a heps ha h.le)
   · rw [e]
-    exact ccOrdered_points eps a b heps hb h (edist_pos hc)
-
+    exact ccOrdered_points eps a b heps hb h
 
 theorem ccOrdered_none_outside (eps : ℝ) (a b : Circle ℝ) (heps : 0 ≤ eps) (hb : 0 ≤ b.r) (hle : b.r ≤ a.r)
     (h : a.r + b.r + eps ≤ edist a.c b.c) : intersectCCOrdered (realGeo eps) a b = CC.none := by
@@ -397,12 +416,12 @@ theorem ccOrdered_none_inside (eps : ℝ) (a b : Circle ℝ)
   simp only []
   rw [if_neg (fun c => by linarith [c.2]), if_pos h]
 
-theorem ccOrdered_touch_inside (eps : ℝ) (a b : Circle ℝ) (h0 : eps ≤ edist a.c b.c)
+theorem ccOrdered_touch_inside (eps : ℝ) (a b : Circle ℝ) (heps : 0 < eps) (h0 : eps ≤ edist a.c b.c)
     (h1 : a.r - b.r - eps ≤ edist a.c b.c) (h2 : edist a.c b.c < a.r - b.r + eps) :
     ∃ p, intersectCCOrdered (realGeo eps) a b = CC.touchInside p := by
   rw [intersectCCOrdered_real]
   simp only []
-  rw [if_neg (fun c => by linarith [c.1]), if_neg (by linarith), if_pos h2]
+  rw [if_neg (fun c => by linarith [c.1]), if_neg (by linarith), if_pos h2, if_pos (by linarith : edist a.c b.c ≠ 0)]
   exact ⟨_, rfl⟩
 
 theorem ccOrdered_touch_outside (eps : ℝ) (a b : Circle ℝ) (hb : eps ≤ b.r) (hle : b.r ≤ a.r)
